@@ -383,4 +383,108 @@ theorem from_geo_bbox_never_err (zmin zmax : Nat) (g : Geo.GeoBBox) : fromGeoBBo
       | panic => simp [Outcome.unwrap]
 
 
+/-! ### `intersect_geo_bbox` -/
+
+theorem mapM_index' {α γ : Type} (f : α → Outcome γ) : ∀ (l : List α) (r : List γ), BBox.mapM f l = .ok r →
+    r.length = l.length ∧ ∀ i (h1 : i < l.length) (h2 : i < r.length), f l[i] = .ok r[i] := by
+  intro l
+  induction l with
+  | nil =>
+    intro r h
+    simp only [BBox.mapM] at h
+    cases h
+    exact ⟨rfl, fun i h1 => absurd h1 (Nat.not_lt_zero _)⟩
+  | cons a as ih =>
+    intro r h
+    simp only [BBox.mapM] at h
+    split at h
+    · rename_i b hb
+      split at h
+      · rename_i bs hbs
+        cases h
+        obtain ⟨hl, hi⟩ := ih bs hbs
+        refine ⟨by simp [hl], ?_⟩
+        intro i h1 h2
+        cases i with
+        | zero => simpa using hb
+        | succ j =>
+          simp only [List.getElem_cons_succ]
+          exact hi j (by simpa using h1) (by simpa using h2)
+      · cases h
+      · cases h
+    · cases h
+    · cases h
+
+/-- the per-level function of `intersect_geo_bbox` -/
+def geoCell (g : Geo.GeoBBox) (pr : BBox × Nat) : Outcome BBox :=
+  match (Geo.bboxFromGeo pr.2 g).unwrap with
+  | .ok gb => (pr.1.intersectBBox gb).unwrap
+  | .err => .panic
+  | .panic => .panic
+
+theorem pyramidIntersectGeo_eq (p : Pyramid) (g : Geo.GeoBBox) :
+    Geo.pyramidIntersectGeo p g = BBox.mapM (geoCell g) p.zipIdx := rfl
+
+theorem geoCell_ok {g : Geo.GeoBBox} {a c : BBox} {z : Nat} (h : geoCell g (a, z) = .ok c) :
+    ∃ gb, Geo.bboxFromGeo z g = .ok gb ∧ a.intersectBBox gb = .ok c := by
+  unfold geoCell at h
+  simp only at h
+  cases hb : Geo.bboxFromGeo z g with
+  | ok gb =>
+    rw [hb] at h
+    simp only [Outcome.unwrap] at h
+    cases hi : a.intersectBBox gb with
+    | ok c' => rw [hi] at h; simp at h; exact ⟨gb, rfl, by rw [← h]; exact hi⟩
+    | err => rw [hi] at h; simp at h
+    | panic => rw [hi] at h; simp at h
+  | err => rw [hb] at h; simp [Outcome.unwrap] at h
+  | panic => rw [hb] at h; simp [Outcome.unwrap] at h
+
+/-- **`intersect_geo_bbox`**: every level becomes the set intersection of the level's box with
+    `from_geo(level, bbox)`; if the geo box cannot be projected at some level of the array the
+    call panics, it never returns an error or a partially clipped pyramid. -/
+theorem intersect_geo_bbox_spec (p r : Pyramid) (g : Geo.GeoBBox)
+    (h : Geo.pyramidIntersectGeo p g = .ok r) :
+    r.length = p.length ∧
+    ∀ z (hz : z < p.length), ∃ gb c, Geo.bboxFromGeo z g = .ok gb ∧ (p[z]'hz).intersectBBox gb = .ok c ∧
+      r[z]? = some c ∧ ∀ x y, mem c x y ↔ (mem (p[z]'hz) x y ∧ mem gb x y) := by
+  rw [pyramidIntersectGeo_eq] at h
+  obtain ⟨hl, hi⟩ := mapM_index' _ _ _ h
+  rw [List.length_zipIdx] at hl
+  refine ⟨hl, ?_⟩
+  intro z hz
+  have h1 : z < p.zipIdx.length := by rw [List.length_zipIdx]; exact hz
+  have h2 : z < r.length := by omega
+  have := hi z h1 h2
+  rw [List.getElem_zipIdx] at this
+  simp only [Nat.zero_add] at this
+  obtain ⟨gb, hgb, hc⟩ := geoCell_ok this
+  exact ⟨gb, r[z], hgb, hc, List.getElem?_eq_getElem h2, fun x y => mem_intersect hc x y⟩
+
+theorem intersect_geo_bbox_never_err (p : Pyramid) (g : Geo.GeoBBox) : Geo.pyramidIntersectGeo p g ≠ .err := by
+  rw [pyramidIntersectGeo_eq]
+  generalize p.zipIdx = l
+  induction l with
+  | nil => simp [BBox.mapM]
+  | cons a l ih =>
+    simp only [BBox.mapM]
+    have hc : geoCell g a ≠ .err := by
+      unfold geoCell
+      cases Geo.bboxFromGeo a.2 g with
+      | ok gb =>
+        simp only [Outcome.unwrap]
+        cases a.1.intersectBBox gb <;> simp
+      | err => simp [Outcome.unwrap]
+      | panic => simp [Outcome.unwrap]
+    cases h1 : geoCell g a with
+    | ok b =>
+      simp only
+      cases h2 : BBox.mapM (geoCell g) l with
+      | ok bs => simp
+      | err => exact absurd h2 ih
+      | panic => simp
+    | err => exact absurd h1 hc
+    | panic => simp
+
+
 end VtProps.C15Extra
